@@ -99,6 +99,16 @@ def gen_streams(rng, quick):
         out.append(("longline-%d" % ln, mk(200, (100, ln)), "\n", True))
     if not quick:
         out.append(("crlf-16385", mk(16385), "\r\n", True))
+    # date-times in no particular order, years apart, for the runs with a zone option: the replacement of a line must not depend on the
+    # lines before it (the zone lookup keeps a cache of the last range)
+    import datetime
+    zl = []
+    for i in range(90):
+        t = datetime.datetime(1996, 1, 1) + datetime.timedelta(days=rng.randrange(0, 9500), seconds=rng.choice([0, 3600, 43200, 86399]))
+        zl.append("ev%02d %s tail" % (i % 7, t.strftime("%Y-%m-%dT%H:%M:%S")))
+    zl += zl[10:30]
+    out.append(("zoned-shuffled", zl, "\n", True))
+    out.append(("zoned-descending", sorted(zl, key=lambda x: x.split()[1], reverse=True), "\n", True))
     # around the 16 MiB window: 9000 lines of 2100 bytes is more than the window before the line limit
     out.append(("window-17MiB", ["2012-03-04 " + "z" * 2089 for _ in range(8500)], "\n", True))
     return out
@@ -114,7 +124,9 @@ def real_scale(rep, b, tier, rng):
     for name, ls, term, final in streams:
         data = term.join(ls) + (term if final else "")
         distinct = sorted(set(ls))
-        for tname, targs in tools if tier != "quick" or name.startswith(("lines-1638", "small", "window", "one", "empty")) else tools[:1]:
+        ztools = [("dconv", ["-S", "-z", "Europe/Berlin", "-f", "%FT%T"]), ("dadd", ["-S", "-z", "America/New_York", "+1h"]),
+                  ("dround", ["-S", "--from-zone", "Australia/Sydney", "/1h"])]
+        for tname, targs in ztools if name.startswith("zoned") else tools if tier != "quick" or name.startswith(("lines-1638", "small", "window", "one", "empty")) else tools[:1]:
             tool = b.tool(tname)
             # the per-line function: the tool's own result on each distinct line alone (arguments do not go through the reader)
             single = {}
